@@ -127,7 +127,8 @@ def with_fault(plan, k):
     q = plan.copy()
     j = int(q.opts()['c05_cycle'])
     kind = 'error'
-    if k >= 1000000: kind = 'evalcost'; k -= 1000000
+    if k >= 2000000: kind = 'stackroom:%d' % ((k - 2000000) % 32); k = (k - 2000000) // 32
+    elif k >= 1000000: kind = 'evalcost'; k -= 1000000
     q.cycles[j] = [fault(k, kind)] + q.cycles[j]
     return q
 
@@ -150,7 +151,10 @@ def points(plan, res, tier, rng):
     cap = 400 if tier == 'quick' else 1500
     ks = list(range(n)) if n <= cap else sorted(rng.sample(range(n), cap))
     ev = sorted(rng.sample(range(n), min(n, 25 if tier == 'quick' else 100)))
-    return ks + [1000000 + k for k in ev]
+    # the value stack runs out: from instruction k on only `room` slots are free, so the driver's own "Stack overflow" is raised
+    # by whichever push comes first - inside an efun, while a callee's locals are set up, while arguments are spread
+    sr = sorted(rng.sample(range(n), min(n, 120 if tier == 'quick' else 500)))
+    return ks + [1000000 + k for k in ev] + [2000000 + k * 32 + rng.choice((0, 1, 2, 3, 4, 5, 6, 8, 10, 13, 17, 22, 30)) for k in sr]
 
 
 def _entry_tuples(res):
@@ -211,7 +215,7 @@ def check_point(plan, res, info):
     # the fault must have fired inside the scenario command (the cycle that carries the fault step)
     fc = next((ci for ci, c in enumerate(plan.cycles) if any(parse_step(x)[0] == 'fault' for x in c)), None)
     if fc is None or fired[0].cycle != fc + 1: return v
-    evalcost = 'kind=evalcost' in fired[0].rest
+    evalcost = 'kind=evalcost' in fired[0].rest or 'kind=stackroom' in fired[0].rest      # the error is raised by the driver, later
     ent = _entry_tuples(res)
     base = set(tuple(t) for t in info['entry'])
     extra = sorted(ent - base)
@@ -253,7 +257,7 @@ def check_point(plan, res, info):
     if _recs(res, 'PROBE') != info['probe']:
         a = _recs(res, 'PROBE'); b = info['probe']
         d = next((x for x in zip(a, b) if x[0] != x[1]), (a[len(b):][:1], b[len(a):][:1]))
-        v.append(Violation(PROP, 'probe', 'probe evaluation after the failed one differs from the fault-free run: %s' % (d,), PROP + '/probe/differs-after-error' + ('-evalcost' if evalcost else '')))
+        v.append(Violation(PROP, 'probe', 'probe evaluation after the failed one differs from the fault-free run: %s' % (d,), PROP + '/probe/differs-after-error' + ('-stackroom' if 'kind=stackroom' in fired[0].rest else '-evalcost' if evalcost else '')))
     return v
 
 
@@ -261,7 +265,7 @@ def summarize_point(plan, res, info):
     fired = res.of('fault_fired')
     if not fired: return {'nontrivial': False, 'abstract': '', 'probes': {'fault_not_reached': 1}}
     caught = any(e.rest.startswith('CATCH ') and INJECT in e.rest for e in res.events if e.kind == 'R')
-    errs = [e.rest for e in res.events if e.kind == 'R' and e.rest.startswith('ERR ') and 'verif injected' in e.rest]
+    errs = [e.rest for e in res.events if e.kind == 'R' and e.rest.startswith('ERR ') and ('verif injected' in e.rest or ('kind=stackroom' in fired[0].rest and 'tack overflow' in e.rest))]
     depth = errs[0].count('|') if errs else 0
     frames = ''
     if errs:
@@ -269,4 +273,5 @@ def summarize_point(plan, res, info):
         if m: frames = ','.join(sorted(set(x.split('@')[0] for x in m.group(1).split('|'))))
     key = '%s %s d%d c%d %s' % (plan.opts().get('c05_cycle'), fired[0].kv().get('prog'), depth, caught, frames)
     return {'nontrivial': True, 'abstract': hashlib.sha256((str(plan.cycles[int(plan.opts()['c05_cycle'])][-1]) + key).encode()).hexdigest()[:16],
-            'probes': {'caught_by_lpc_catch': int(caught), 'reached_driver': int(bool(errs) and not caught), 'evalcost_kind': int('evalcost' in fired[0].rest)}}
+            'probes': {'caught_by_lpc_catch': int(caught), 'reached_driver': int(bool(errs) and not caught), 'evalcost_kind': int('evalcost' in fired[0].rest),
+                       'stackroom_kind': int('stackroom' in fired[0].rest), 'stackroom_overflow_raised': int('stackroom' in fired[0].rest and any('tack overflow' in e.rest for e in res.events if e.kind in ('R', 'D')))}}
